@@ -32,7 +32,7 @@ From Coq Require Import List ZArith.
 Import ListNotations.
 From KDB Require Import PropAbs PropAbsProofs.
 From KDB Require Util PropDefs PropFlags PropLink PropCheck PropSim PropGrow PropGrowMore PropMove PropMixed.
-From KDB Require TablesDefs Tables PropAbsAct PropSimAct PropGrowAct.
+From KDB Require TablesDefs Tables PropAbsAct PropSimAct PropGrowAct PropAbsAct2 PropSimAct2 PropGrowAct2.
 From KDB.generated Require OpsTable.
 
 (* Inv s [] says: every node of every binding is clean, every cached result is the denotation of its subtree, every
@@ -356,4 +356,73 @@ Example C02_acting_observers_any_order_example :
               PropDefs.PSet 0 5%Z PropDefs.WSet] in
   PropGrowAct.grow_act_run_ok fn true 8 PropDefs.world0 ops /\
   map (PropDefs.values (PropDefs.run fn true 8 ops)) [0; 1; 2; 3; 4] = [Some 5%Z; Some 5%Z; Some 10%Z; Some 5%Z; Some 15%Z].
+Proof. vm_compute. repeat split; reflexivity. Qed.
+
+(* 10. observers of valueAboutToChange that write (coq/PropAbsAct2.v, coq/PropSimAct2.v, coq/PropGrowAct2.v): before the new value of an UNBOUND
+   property is stored, such an observer assigns the old value to another property - a complete nested assignment running while the outer
+   assignment has not stored anything yet.  (On a BOUND property such an observer would run between the re-evaluation of the binding and the
+   store; a dependency cycle through it is not detected by the library - DESIGN.md 7 - and such observers are excluded.)
+   Abstract layer, every network and delivery order: *)
+Theorem C02_consistent_with_writing_observers_of_both_signals_abstract :
+  forall F1 F2 F3 (order' : nat -> list PropAbsAct.sub) (orderA : nat -> list nat) fuel s p v,
+    tr s p = None -> oof s = false -> Inv F1 F2 F3 (PropAbsAct.lorder order') s [] ->
+    oof (PropAbsAct2.set2 F1 F2 F3 order' orderA fuel s p v) = false ->
+    Inv F1 F2 F3 (PropAbsAct.lorder order') (PropAbsAct2.set2 F1 F2 F3 order' orderA fuel s p v) [].
+Proof. exact PropAbsAct2.set2_consistent. Qed.
+Print Assumptions C02_consistent_with_writing_observers_of_both_signals_abstract.
+
+(* the executable Property::setHelper refines it ... *)
+Theorem C02_set_helper_refines_abstract_set_with_writing_observers_of_both_signals :
+  forall fn rtl order' orderA f w q v w' s,
+    PropSimAct2.SCB w -> PropSimAct2.ORDOKB order' orderA w -> PropSim.Rel w s -> PropDefs.set_helper fn rtl f w q v = (w', None) ->
+    PropSimAct2.SCB w' /\ PropSim.FR w w' /\
+    PropSim.Rel w' (PropAbsAct2.set2 (PropSim.F1 fn) (PropSim.F2 fn) (PropSim.F3 fn) order' orderA f s q v).
+Proof. exact PropSimAct2.sim_set2. Qed.
+Print Assumptions C02_set_helper_refines_abstract_set_with_writing_observers_of_both_signals.
+
+(* ... so that after ANY history of a growing network followed by ANY history that attaches observers - plain, writing on valueChanged, writing
+   on valueAboutToChange of an unbound property - and assigns inputs, every immediately bound property equals its expression *)
+Theorem C02_network_then_writing_observers_of_both_signals_consistent :
+  forall fn rtl fuel ops1 ops2 q x pr z,
+    PropMove.grow3_run_ok fn rtl fuel PropDefs.world0 ops1 ->
+    PropGrowAct2.act2_run_ok fn rtl fuel (PropDefs.run fn rtl fuel ops1) ops2 ->
+    let w := PropDefs.run fn rtl fuel (ops1 ++ ops2) in
+    PropSim.imm_of w q = Some x -> Util.lookup (PropDefs.w_props w) q = Some pr ->
+    PropCheck.den_node fn (PropDefs.values w) (PropDefs.b_root x) = Some z -> PropDefs.pr_value pr = z.
+Proof. exact PropGrowAct2.network_then_observers_of_both_kinds_consistent. Qed.
+Print Assumptions C02_network_then_writing_observers_of_both_signals_consistent.
+
+(* non-vacuity: 2 = x + y; an observer of x.valueAboutToChange writes the OLD value of x into y before x is stored: after x := 5 (old value 1),
+   y = 1 and 2 = 5 + 1; after x := 7 (old value 5), y = 5 and 2 = 12 *)
+Example C02_about_to_change_writer_example :
+  let fn := fun (f : nat) (l : list Z) => Some (fold_right Z.add 0%Z l) in
+  let ops1 := [PropDefs.PNew 0 1%Z; PropDefs.PNew 1 0%Z;
+               PropDefs.PBind 2 (PropDefs.EOp2 0 (PropDefs.EProp 0) (PropDefs.EProp 1)) PropDefs.MImmediate] in
+  let ops2 := [PropDefs.PObserve 0 PropDefs.KAbout 100 0 (Some (false, 1)); PropDefs.PSet 0 5%Z PropDefs.WSet; PropDefs.PSet 0 7%Z PropDefs.WSet] in
+  PropMove.grow3_run_ok fn true 8 PropDefs.world0 ops1 /\
+  PropGrowAct2.act2_run_ok fn true 8 (PropDefs.run fn true 8 ops1) ops2 /\
+  map (PropDefs.values (PropDefs.run fn true 8 (ops1 ++ ops2))) [0; 1; 2] = [Some 7%Z; Some 5%Z; Some 12%Z].
+Proof. vm_compute. repeat split; reflexivity. Qed.
+
+(* ... and, as in section 9, also when everything is interleaved in ANY order: new properties, observers of every kind above, fresh immediately
+   bound properties, assignments (the growth lemmas once more, with `writing observers of both signals allowed`; a freshly created
+   property has no valueAboutToChange table, so binding it puts no writing observer on a bound property) *)
+Theorem C02_growing_network_with_writing_observers_of_both_signals_consistent :
+  forall fn rtl fuel ops q x pr z,
+    PropGrowAct2.grow_act2_run_ok fn rtl fuel PropDefs.world0 ops ->
+    let w := PropDefs.run fn rtl fuel ops in
+    PropSim.imm_of w q = Some x -> Util.lookup (PropDefs.w_props w) q = Some pr ->
+    PropCheck.den_node fn (PropDefs.values w) (PropDefs.b_root x) = Some z -> PropDefs.pr_value pr = z.
+Proof. exact PropGrowAct2.grow_act2_reachable_consistent. Qed.
+Print Assumptions C02_growing_network_with_writing_observers_of_both_signals_consistent.
+
+Example C02_writers_of_both_signals_any_order_example :
+  let fn := fun (f : nat) (l : list Z) => Some (fold_right Z.add 0%Z l) in
+  let ops := [PropDefs.PNew 0 1%Z; PropDefs.PNew 1 0%Z; PropDefs.PObserve 0 PropDefs.KAbout 100 0 (Some (false, 1));
+              PropDefs.PBind 2 (PropDefs.EOp2 0 (PropDefs.EProp 0) (PropDefs.EProp 1)) PropDefs.MImmediate;
+              PropDefs.PNew 3 0%Z; PropDefs.PObserve 1 PropDefs.KChanged 101 1 (Some (false, 3)); PropDefs.PSet 0 5%Z PropDefs.WSet;
+              PropDefs.PBind 4 (PropDefs.EOp2 1 (PropDefs.EProp 3) (PropDefs.EProp 2)) PropDefs.MImmediate;
+              PropDefs.PSet 0 7%Z PropDefs.WSet] in
+  PropGrowAct2.grow_act2_run_ok fn true 8 PropDefs.world0 ops /\
+  map (PropDefs.values (PropDefs.run fn true 8 ops)) [0; 1; 2; 3; 4] = [Some 7%Z; Some 5%Z; Some 12%Z; Some 5%Z; Some 17%Z].
 Proof. vm_compute. repeat split; reflexivity. Qed.
